@@ -20,7 +20,8 @@ DEFAULT_RULE = ("cases come from harness/src/gen.rs (one SplitMix64 stream seede
 PROPS = {
     "C13": {
         "runs": [{"profile": "c13", "n_quick": 20000, "n_thorough": 400000},
-                 {"profile": "climulti", "kind": "cli", "n_quick": 25, "n_thorough": 400, "nontrivial": "any"}],
+                 {"profile": "climulti", "kind": "cli", "n_quick": 25, "n_thorough": 400, "nontrivial": "any"},
+                 {"profile": "c02", "n_quick": 3000, "n_thorough": 60000}],
         "observable": "text received by the mock AsyncDB / argv of the command given to the mock's run_command (test directory and clock canonicalised after checking their shape), verdict and error kind of records whose substitution fails; oracle on the implementation alone: one existing test directory per runner, the same for all its records, distinct between runners alive at the same time, gone after drop",
         "explanation": "texts over the documented syntax built from abstract templates: literals incl. { } : multi-byte, $NAME, ${NAME}, ${NAME:default} nested to depth 4, escapes, 10 variable names (locals, environment, unset, special, shadowed), 11 values containing $ \\ { } : ; 1/7 malformed texts (stray \\x, ${, ${}, $ at the end = the dependency's index panic, reproduced by the model); substitution switched on / off at arbitrary points; system commands (simple replacement)",
         "trusted": ["tempfile name freshness and directory removal are OS / crate behaviour: observed, not proved (partial)"],
@@ -115,7 +116,8 @@ PROPS = {
     },
     "C01": {
         "runs": [{"profile": "c01", "n_quick": 20000, "n_thorough": 500000},
-                 {"profile": "c17lib", "n_quick": 300, "n_thorough": 10000, "nontrivial": "any"}],
+                 {"profile": "c17lib", "n_quick": 300, "n_thorough": 10000, "nontrivial": "any"},
+                 {"profile": "c02", "n_quick": 3000, "n_thorough": 60000}],
         "observable": "verdict, failure kind and the reported actual/err payload of Runner::run_multi on a one-record script",
         "explanation": "random: every expectation form x answer family (exact / whitespace-relaid / value changed / line removed, added, swapped / wrong kind / wrong types) x file-level sort, result mode, threshold, strict|default column check",
     },
@@ -127,12 +129,14 @@ PROPS = {
     },
     "C12": {
         "runs": [{"profile": "c12", "n_quick": 6000, "n_thorough": 120000},
-                 {"profile": "climulti", "kind": "cli", "n_quick": 25, "n_thorough": 400, "nontrivial": "any"}],
+                 {"profile": "climulti", "kind": "cli", "n_quick": 25, "n_thorough": 400, "nontrivial": "any"},
+                 {"profile": "c02", "n_quick": 3000, "n_thorough": 60000}],
         "observable": "MakeConnection invocations in order, session id per call (the mock answers every query with [session id, earlier calls on that session]), per-session order, multiset of sessions shut down",
         "explanation": "random scripts over connection names {default,a,A,b,c1} incl. repeated connection lines, interleaved with comments / system / guards / failing records, failing connection attempts",
     },
     "C09": {
-        "runs": [{"profile": "c09", "n_quick": 300, "n_thorough": 20000, "exhaustive": True, "oracle": "c09"}],
+        "runs": [{"profile": "c09", "n_quick": 300, "n_thorough": 20000, "exhaustive": True, "oracle": "c09"},
+                 {"profile": "c02", "n_quick": 3000, "n_thorough": 60000}],
         "observable": "verdict + failing line + ordered trace of (session, sql) / command / sleep events",
         "exhaustive": True,
         "explanation": "exhaustive: N in 1..6 x all 2^N outcome sequences x 6 record kinds x 3 backoffs; random part: N in 7..24",
@@ -140,7 +144,8 @@ PROPS = {
     },
     "C10": {
         "runs": [{"profile": "c10", "n_quick": 1500, "n_thorough": 40000, "exhaustive": True, "oracle": "c10"},
-                 {"profile": "climulti", "kind": "cli", "n_quick": 25, "n_thorough": 400, "nontrivial": "any"}],
+                 {"profile": "climulti", "kind": "cli", "n_quick": 25, "n_thorough": 400, "nontrivial": "any"},
+                 {"profile": "c02", "n_quick": 3000, "n_thorough": 60000}],
         "observable": "verdict (+ failure kind) of the query for the permuted answer",
         "exhaustive": True,
         "explanation": "exhaustive: all permutations of 11 base result sets of <= 5 rows x 4 query-level x 4 file-level sort modes x 2 result modes (5-row sets thinned in the quick tier); random: row and value permutations of larger sets",
@@ -148,7 +153,8 @@ PROPS = {
     "C11": {
         "runs": [{"profile": "c11", "n_quick": 3000, "n_thorough": 3000, "exhaustive": True, "oracle": "c11"},
                  {"profile": "climulti", "kind": "cli", "n_quick": 25, "n_thorough": 400, "nontrivial": "any"},
-                 {"profile": "c17lib", "n_quick": 300, "n_thorough": 10000, "nontrivial": "any"}],
+                 {"profile": "c17lib", "n_quick": 300, "n_thorough": 10000, "nontrivial": "any"},
+                 {"profile": "c02", "n_quick": 3000, "n_thorough": 60000}],
         "observable": "executed? (call log), verdict",
         "exhaustive": True,
         "explanation": "exhaustive: all guard lists of length <= 2 (quick) / <= 3 (thorough) over {onlyif,skipif} x 4 labels x all 16 label subsets x 3 record kinds x engine name set/empty",
@@ -156,7 +162,8 @@ PROPS = {
     "C15": {
         "runs": [{"profile": "c15", "n_quick": 6000, "n_thorough": 200000, "oracle": "c15"},
                  {"profile": "climulti", "kind": "cli", "n_quick": 25, "n_thorough": 400, "nontrivial": "any"},
-                 {"profile": "c17lib", "n_quick": 300, "n_thorough": 10000, "nontrivial": "any"}],
+                 {"profile": "c17lib", "n_quick": 300, "n_thorough": 10000, "nontrivial": "any"},
+                 {"profile": "c02", "n_quick": 3000, "n_thorough": 60000}],
         "observable": "verdict against an expectation holding the reference digest computed by the harness with the md-5 crate on the reference value order",
         "trusted": ["md-5 crate as the reference MD5 (Md5.lean is compared against it through every hashed case and #guard-ed on the RFC 1321 vectors)"],
     },
